@@ -45,7 +45,9 @@ fn main() {
         std::process::exit(2);
     }
     let code = engine::catch(|| match args[1].as_str() {
+        "C01" => dispatch(&props::c01::P, &args),
         "C02" => dispatch(&props::c02::P, &args),
+        "C14" => dispatch(&props::c14::P, &args),
         "C03" => dispatch(&props::c03::P, &args),
         "C11" => dispatch(&props::c11::P, &args),
         "C15" => dispatch(&props::c15::P, &args),
